@@ -82,7 +82,7 @@ class Script:
         r = self.r
         if enc == "u16":
             n = r.choice([0, 0, 1, 2, 5])
-            return [r.choice([0, 0x41, 0xd800, 0xdc00, 0xffff, 0x20ac, r.getrandbits(16)]) for _ in range(n)]
+            return [r.choice([0, 0x41, 0xd800, 0xdc00, 0xffff, 0x20ac, 0xfeff, r.getrandbits(16)]) for _ in range(n)]          # lone surrogates and a (leading) U+FEFF are ordinary code units of an unvalidated UTF-16 string
         if enc == "utf8":
             return r.choice(["", "", "a", "héllo", "€uro", "😀", "a\u0000b", "ascii only text", "߿￿\U0010ffff"]).encode("utf-8")
         if self.lang == "js":
